@@ -238,6 +238,61 @@ def eval_case(kind, data):
         if not obs[2] or len(owners) != 1:
             viol(res, f"C13|generate-not-a-member|{name}", f"System({text!r}).generate() returns {obs[1]} (fully generated {obs[2]}, member of {len(owners)} components)", {"text": text, "script": rng.choices})
     res["traces"] += m
+    # the same System object used again: partially consumed iterators, complete iterations and single generations in every
+    # order (histories up to length 3) must leave the next complete iteration unaffected
+    import itertools as _it
+
+    import numpy as np
+
+    def consume(obj, k, rng):
+        old = System.generator.fget.__defaults__
+        System.generator.fget.__defaults__ = (rng,)
+        try:
+            out = []
+            gen = obj.generator
+            for mg in gen:
+                out.append((mg.smiles, float(mg.weight), bool(mg.fully_generated)))
+                if k is not None and len(out) >= k:
+                    break
+                if len(out) > 300:
+                    break
+            return out
+        finally:
+            System.generator.fget.__defaults__ = old
+
+    nh = 0
+    for hist in _it.chain.from_iterable(_it.product(["P1", "P2", "F", "G"], repeat=r) for r in (1, 2, 3)):
+        nh += 1
+        try:
+            obj = gbigsmiles.System(text, ext)
+            for hi, op in enumerate(hist):
+                rng = np.random.default_rng(100 + hi)
+                if op == "G":
+                    obj.generate(rng=rng)
+                else:
+                    consume(obj, {"P1": 1, "P2": 2, "F": None}[op], rng)
+            seq = consume(obj, None, np.random.default_rng(7))
+        except HarnessError:
+            raise
+        except Exception as e:  # noqa
+            viol(res, f"C13|reuse-raises|{name}", f"System({text!r}) after {list(hist)}: {type(e).__name__}: {str(e)[:80]}", {"text": text, "hist": list(hist)})
+            continue
+        res["states"] += 1
+        res["transitions"] += len(hist) + 1
+        acc = 0.0
+        bad = None
+        for k, (smi, w, full) in enumerate(seq):
+            if acc >= Smass - 1e-9:
+                bad = f"molecule {k} generated although the system mass was reached"
+            acc += w
+            if not full or len([1 for st_ in sets if Chem.CanonSmiles(smi) in st_]) != 1:
+                bad = f"molecule {k} ({smi}) is not a complete member"
+        if acc < Smass - 1e-9:
+            bad = f"iteration stops at accumulated mass {acc:.3f} < system mass {Smass:.3f}"
+        if bad:
+            viol(res, f"C13|depends-on-earlier-use|{'after-partial-iteration' if any(h in ('P1', 'P2') for h in hist) else 'after-complete-use'}", f"System({text!r}) after the history {list(hist)} on the same object: {bad}", {"text": text, "hist": list(hist)})
+    res["traces"] += nh
+    res["extra"] = {"reuse_histories": nh}
     res["evals"] = res["traces"]
     res["nontrivial"] = [name, n]
     res["outcomes"] = [f"{name}:len={k}" for k in sorted(lengths)]
